@@ -113,6 +113,9 @@ func (e *Exec) Input(name, kind string, t types.Type) *Term {
 
 var intrinsics map[string]stubFn
 
+// lateIntrinsics: registrations from other files' init functions, applied after the table exists
+var lateIntrinsics []func()
+
 func init() {
 	intrinsics = map[string]stubFn{
 		"vInt": func(e *Exec, st *State, fn *ssa.Function, args []Val, where string) Val {
@@ -313,6 +316,9 @@ func init() {
 			}
 			return &StrV{Conc: s.Field(int(k)).Name()}
 		},
+	}
+	for _, f := range lateIntrinsics {
+		f()
 	}
 }
 
